@@ -105,12 +105,19 @@ func TestC16(t *testing.T) {
 			}
 		}
 	}
+	// no receive limit at all: negative lengths
+	for rep := 0; rep < r.Pick(20, 300); rep++ {
+		cases = append(cases, mon.CaseSpec{Name: "unlimited", Spec: spec{Kind: "unlimited", Tr: []string{"tcp", "ipc"}[rep%2], N: 4}})
+	}
 	// stalled handshakes
 	for rep := 0; rep < r.Pick(6, 30); rep++ {
 		for _, tr := range []string{"tcp", "tls+tcp", "ipc", "ws", "wss"} {
 			for _, k := range []int{1, 8, 64} {
-				for _, mode := range []string{"silent", "partial", "dialer"} {
+				for _, mode := range []string{"silent", "partial", "dialer", "hangup"} {
 					if mode == "dialer" && (tr == "ws" || tr == "wss") {
+						continue
+					}
+					if mode == "hangup" && k == 64 {
 						continue
 					}
 					cases = append(cases, mon.CaseSpec{Name: "stall", Spec: spec{Kind: "stall", Tr: tr, Sock: hx.AllProtos[rnd.Intn(len(hx.AllProtos))], K: k, Mode: mode}})
@@ -139,6 +146,8 @@ func TestC16(t *testing.T) {
 			caseStreamReal(c, sp)
 		case "wslim":
 			caseWSLimit(c, sp)
+		case "unlimited":
+			caseUnlimited(c, sp)
 		case "stall":
 			caseStall(c, sp)
 		}
@@ -230,8 +239,17 @@ func caseStall(c *mon.Case, sp spec) {
 			}
 			cn, err := net.Dial(network, hostport)
 			env(err)
-			spcodec.NoLinger(cn)
+			if sp.Mode != "hangup" {
+				spcodec.NoLinger(cn) // (a hang-up must be an orderly close: the library is to see a clean end of stream)
+			}
 			stalled = append(stalled, cn)
+			if sp.Mode == "hangup" {
+				// the peer goes away before (or right after) its first handshake byte
+				if i%2 == 1 && !isWS && sp.Tr != "tls+tcp" {
+					cn.Write(spcodec.Header(proto.PeerNum)[:1])
+				}
+				cn.Close()
+			}
 			if sp.Mode == "partial" {
 				switch {
 				case isWS:
